@@ -152,6 +152,7 @@ def cases(draw):
             'pre': {'junk': draw(st.booleans()), 'edzed_key': draw(st.booleans()),
                     'stop_time': draw(st.sampled_from(['absent', 'valid', 'old', 'int', 'str']))},
             'end': draw(st.sampled_from(['stop', 'stop', 'stop', 'abort', 'failed_start'])),
+            'slow_stop': draw(st.sampled_from([None, None, 2.5, 9.5])),
             'restarts': restarts}
 
 
@@ -168,13 +169,22 @@ class FailingStart(edzed.SBlock):
         self.set_output(0)
 
 
+class SlowStop(edzed.AddonAsync, edzed.SBlock):
+    """asynchronous clean-up that takes a while: the other blocks keep handling (timed) events"""
+    def init_regular(self):
+        self.set_output(0)
+
+    async def stop_async(self):
+        await asyncio.sleep(self.x_delay)
+
+
 def _check(value):
     if value == 'boom':
         raise RuntimeError('check function failed')
     return True
 
 
-def build(case, log, clock, failing_start=False):
+def build(case, log, clock, failing_start=False, slow_stop=None):
     """-> {index: block}"""
     real = {}
     harness.Recorder('rec', x_log=[], x_hook=lambda rec: log.append(
@@ -213,6 +223,8 @@ def build(case, log, clock, failing_start=False):
         real[i] = blk
     if failing_start:
         FailingStart('failing')
+    if slow_stop:
+        SlowStop('slowstop', x_delay=slow_stop, stop_timeout=20)
     return real
 
 
@@ -273,7 +285,18 @@ def run1(case):
         circuit = edzed.get_circuit()
         t0 = loop.time()
         log = []
-        real = build(case, log, lambda: loop.time() - t0, failing_start=case['end'] == 'failed_start')
+        real = build(case, log, lambda: loop.time() - t0, failing_start=case['end'] == 'failed_start',
+                     slow_stop=case.get('slow_stop'))
+        # state of each block right after every event it handled (instance-level instrumentation)
+        handled = {i: [] for i in real}
+        for i, b in real.items():
+            def wrap(i=i, b=b, orig=b.event):
+                def event(etype, /, **data):
+                    r = orig(etype, **data)
+                    handled[i].append((loop.time(), state_of(b)))
+                    return r
+                return event
+            b.event = wrap()
         storage = harness.DeepCopyDict()
         pre = case['pre']
         if pre['junk']:
@@ -360,6 +383,7 @@ def run1(case):
         out['info']['fatal'] = fatal
         pre_stop = {i: state_of(b) for i, b in real.items()}
         t_stop = wall.peek_us() / 1e6
+        loop_stop = loop.time()
         if case['end'] == 'abort' and not fatal:
             circuit.abort(RuntimeError('abort'))
         await sim.stop()
@@ -367,9 +391,14 @@ def run1(case):
         out['info']['final'] = final
         if case['end'] == 'stop' and not fatal:
             for i, b in real.items():
-                if not same_state(final.get(keys[i], 'MISSING'), pre_stop[i]):
+                # events (timers) handled while the asynchronous clean-up of another block was awaited
+                later = [st_ for t, st_ in handled[i] if t > loop_stop]
+                want = later[-1] if later and case['blocks'][i]['sync'] else pre_stop[i]
+                if later:
+                    out['info']['events_during_cleanup'] = True
+                if not same_state(final.get(keys[i], 'MISSING'), want):
                     out['errs'].append(('C06.not_saved_at_stop', f"{keys[i]}: stored {final.get(keys[i], 'MISSING')!r}, "
-                                        f"state before the stop {pre_stop[i]!r}"))
+                                        f"state {'after the last event handled during the clean-up' if later else 'before the stop'} {want!r}"))
             ts = final.get('edzed-stop-time')
             if not isinstance(ts, float) or abs(ts - t_stop) > 1e-3:
                 out['errs'].append(('C06.stop_time', f"edzed-stop-time {ts!r}, wall clock at stop {t_stop!r}"))
@@ -572,5 +601,7 @@ def execute(case):
         res.classes.append('expiration decided')
     if info.get('fatal'):
         res.classes.append('handler error in run 1')
+    if info.get('events_during_cleanup'):
+        res.classes.append('events handled during asynchronous clean-up')
     res.outcome = {'snapshots': len(snaps), 'restarts': (evals - 1) // 2}
     return res
